@@ -270,11 +270,18 @@ fn gen(r: &mut Rng, tier: &Tier, out: &mut Vec<String>) {
         out.push(format!("P {} {} {} {}", k, n, hex(&a), hex(&b)));
         if r.chance(1, 4) { out.push(format!("H {} {} {}", k, n, hex(&a))); }
     }
-    // known class: raw IPv4 from 134.221.x.x (bytes 12..13 = 86 dd) shorter than 54 bytes, pairs sharing the identity
+    // former known class (repaired): raw IPv4 from 134.221.x.x (bytes 12..13 = 86 dd) shorter than 54 bytes, pairs sharing the identity;
+    // plus Ethernet frames cut just below / at the 34 and 54 byte thresholds of the framing decision
     for third in [0x10u8, 0x45, 0x60, 0x99] { for k in CRATES { for n in [2usize, 5, 64] { for extra in [0usize, 4, 12] {
         let mk = |seq: u32, win: u16| V4::new([134, 221, third, 7], [10, 0, 0, 2]).build(&tcp_segment(40000, 80, seq, 0, SYN, win, &vec![1u8; extra], &[]));
         out.push(format!("P {} {} {} {}", k, n, hex(&mk(1, 1000)), hex(&mk(0x01020304, 4321))));
         out.push(format!("H {} {} {}", k, n, hex(&mk(77, 512))));
+    }}}}
+    for k in CRATES { for (et, v6) in [(0x0800u16, false), (0x86DDu16, true)] { for len in [14usize, 15, 20, 33, 34, 35, 40, 53, 54, 55, 60, 74] { for b0 in [0x02u8, 0x45, 0x60] {
+        let mut c = Conn::gen(r); c.v6 = v6;
+        let mut f = eth_mac(b0, et, &c.ip(true, &c.seg(true, 0), 0, None));
+        f.truncate(len);
+        out.push(format!("H {} {} {}", k, 1 + len % 64, hex(&f)));
     }}}}
     // ---- T1 stream 2: single frames: malformed, truncated, every IHL, loopback, non-TCP ----
     for _ in 0..tier.scale(1500, 25000) {
